@@ -37,6 +37,8 @@ var reflectPanicky = map[string][]string{
 	"(reflect.Value).Set":            nil,
 	"(reflect.Value).Addr":           nil,
 	"(reflect.Value).IsNil":          {"Ptr", "Interface", "Slice", "Map", "Chan", "Func", "Pointer"},
+	"(reflect.Value).Pointer":        {"Ptr", "Slice", "Map", "Chan", "Func", "Pointer", "UnsafePointer"},
+	"(reflect.Value).UnsafePointer":  {"Ptr", "Slice", "Map", "Chan", "Func", "Pointer", "UnsafePointer"},
 	"(reflect.Value).Int":            {"Int", "Int8", "Int16", "Int32", "Int64"},
 	"(reflect.Value).Uint":           {"Uint", "Uint8", "Uint16", "Uint32", "Uint64", "Uintptr"},
 	"(reflect.Value).Float":          {"Float32", "Float64"},
